@@ -139,10 +139,12 @@ class Cli:
 
     @property
     def version_string(self):
+        # Triple quotes in arguments would close the raw docstring; a backslash keeps them inside it
+        command = " ".join(sys.argv).replace('"""', r'\"\"\"')
         return (
             'r"""\n'
             f'generated by json2python-models v{VERSION} at {datetime.now().ctime()}\n'
-            f'command: {" ".join(sys.argv)}\n'
+            f'command: {command}\n'
             '"""\n'
         )
 
